@@ -1108,6 +1108,15 @@ where
         heights
     };
 
+    // `precompute_evaluation_points` subtracts every height from `log_global_max_height`.
+    if let Some(&h) = unique_heights_desc.first()
+        && h > log_global_max_height
+    {
+        return Err(VerificationError::InvalidProofShape(format!(
+            "committed matrix of log height {h} exceeds the FRI log_max_height {log_global_max_height}"
+        )));
+    }
+
     let eval_points = if unique_heights_desc.is_empty() {
         BTreeMap::new()
     } else {
